@@ -273,6 +273,11 @@ class Gen:
             if r < 0.4:
                 o = {"t": "int", "n": rng.choice([1, 2, 3, 4]), "signed": rng.random() < 0.2,
                      "endian": rng.choice(["big", "little"])}
+                if self.p.get("sel_int_without_byte_order") and rng.random() < 0.4:
+                    # no byte order of its own: the library compiles run-time selected fields with an empty configuration
+                    # (big-endian whatever the class says); only generated where no *value* is judged against the model (C01)
+                    o["endian"] = None
+                    o["sel_option"] = True
             elif r < 0.7 or depth >= self.p["max_depth"]:
                 o = {"t": "data", "mode": "const", "size": rng.choice([1, 2, 4])} if rng.random() < 0.6 else \
                     {"t": "data", "mode": "marker", "marker": rng.choice(MARKERS), "include": rng.random() < 0.4}
@@ -281,7 +286,7 @@ class Gen:
                 o = {"t": "ref", "decl": sub["name"]}
             options[str(k)] = o
         self.hint(key, "keys", keys + [rng.choice([5, 6])])
-        form = rng.choice(["chooses", "chooses", "lambda"])
+        form = rng.choice(["chooses", "chooses", "lambda", "fresh"])     # fresh: the callable builds a new field / packet on every call
         # default: value consistent with one option
         dk = str(keys[0])
         f = {"name": name, "t": "sel", "key": key["name"], "options": options, "form": form, "default_key": dk}
